@@ -77,7 +77,7 @@ def check_slices(ctx: Ctx) -> None:
     ctx.extra["slice_alphabet_size"] = n_checked
 
 
-def run_history(scen: dict, case: dict, storage: str, pool: str | None = None) -> dict:
+def run_history(scen: dict, case: dict, storage: str, pool: str | None = None, progress: bool = False) -> dict:
     """pool: None = sequential; "thread" / "process" = every run of the history goes through a real pool of that kind
     (calls are then ordered by the append-only cross-process log file)."""
     pdesc = pmap.tla_desc_to_py(scen["desc"])
@@ -90,6 +90,8 @@ def run_history(scen: dict, case: dict, storage: str, pool: str | None = None) -
         from concurrent.futures import ProcessPoolExecutor, ThreadPoolExecutor
         ex = ThreadPoolExecutor(3) if pool == "thread" else ProcessPoolExecutor(3)
     par = {"parallel": bool(pool), "executor": ex}
+    if progress:                       # the progress tracker shares code paths with the selection of elements
+        par["show_progress"] = True
     shapes = ext_shapes(scen)
     evs: list[dict] = []
     try:
@@ -119,7 +121,7 @@ def run_history(scen: dict, case: dict, storage: str, pool: str | None = None) -
         shutil.rmtree(folder, ignore_errors=True)
         with contextlib.suppress(FileNotFoundError):
             os.unlink(logf)
-    return {"desc": scen["desc"], "inputs": scen["inputs"], "ev": evs, "meta": {"storage": storage, "case": case, "pool": pool or ""}}
+    return {"desc": scen["desc"], "inputs": scen["inputs"], "ev": evs, "meta": {"storage": storage, "case": case, "pool": pool or "", "progress": progress}}
 
 
 def run_learners(scen: dict, variant: str, seed: int) -> dict:
@@ -207,6 +209,8 @@ def run(ctx: Ctx) -> None:
         for k, c in enumerate(multi[: (3 if quick else 18)]):
             for pool in ("thread", "process"):
                 traces.append(run_history(scen, c, storages[(k + (pool == "process")) % 3], pool=pool))
+        for k, c in enumerate(multi[:(2 if quick else 8)]):       # with the progress tracker on (sequential and thread pool)
+            traces.append(run_history(scen, c, storages[k % 3], pool=None if k % 2 else "thread", progress=True))
     # learners: one SequenceLearner per function (and per key with split_independent_axes), executed element by element
     for sc in (["outer", "consumer", "multi"] if quick else ["outer", "zip", "consumer", "reduceother", "multi", "internalfirst"]):
         scen, _, _ = export(ctx, sc) if sc not in ("outer", "consumer", "reduceother", "internalfirst") or True else (None, None, None)
@@ -254,7 +258,8 @@ def run(ctx: Ctx) -> None:
 
 def replay(rep: dict) -> int:
     w = rep["witness"]
-    t = run_history({"desc": w["desc"], "inputs": w["inputs"]}, w["meta"]["case"], w["meta"]["storage"])
+    t = run_history({"desc": w["desc"], "inputs": w["inputs"]}, w["meta"]["case"], w["meta"]["storage"],
+                    pool=w["meta"].get("pool") or None, progress=bool(w["meta"].get("progress")))
     print([(x["e"], x["f"], x.get("cls", ""), len(x.get("disk", []))) for x in t["ev"]])
     ctx = Ctx(PROPERTY, "quick", 0)
     ctx.findings = []
